@@ -2,7 +2,14 @@
 
 package keystore
 
-import "github.com/massnetorg/mass-core/config"
+import (
+	"github.com/massnetorg/mass-core/config"
+
+	wconfig "massnet.org/mass-wallet/config"
+	mwdb "massnet.org/mass-wallet/masswallet/db"
+	mdb "massnet.org/mass-wallet/zzverifmdb"
+	rt "massnet.org/mass-wallet/zzverifrt"
+)
 
 // VerifNewManager: a keystore manager whose current keystore is an (empty) address manager named walletId.
 // Overlay-only hook for harnesses of other packages (txmgr, masswallet) that need CurrentKeystore().Name().
@@ -47,4 +54,38 @@ func VerifSetCurrent(km *KeystoreManager, walletId string) {
 		return
 	}
 	km.currentKeystore = &currentKeystore{accountName: walletId}
+}
+
+// VerifInstallKeystore: walletId as a *stored* keystore of km - the bucket km/<walletId> (with one entry standing for
+// its contents), its entry in the account-id bucket, and the cache entry whose storage is that bucket.
+func VerifInstallKeystore(km *KeystoreManager, root *mdb.Bucket, walletId string) {
+	kmB := root.Sub(ksMgrBucket)
+	amB := kmB.Sub(walletId)
+	amB.Set([]byte("contents"), []byte{1})
+	kmB.Sub(accountIDBucket).Set([]byte(walletId), []byte{0})
+	km.managedKeystores[walletId] = &AddrManager{keystoreName: walletId, index: map[uint32]string{}, addrs: map[string]*ManagedAddress{},
+		acctInfo: &accountInfo{}, branchInfo: &branchInfo{}, storage: amB.GetBucketMeta()}
+}
+
+// VerifKeystoreStored / VerifKeystoreCached: is anything of walletId left in the store / in the cache?
+func VerifKeystoreStored(root *mdb.Bucket, walletId string) bool {
+	kmB := root.Sub(ksMgrBucket)
+	return kmB.Bucket(walletId) != nil || kmB.Sub(accountIDBucket).Lookup([]byte(walletId)) != nil
+}
+
+func VerifKeystoreCached(km *KeystoreManager, walletId string) bool {
+	_, ok := km.managedKeystores[walletId]
+	return ok
+}
+
+// cut "loadAddrManager": reloading an address manager from its bucket (decryption with the public passphrase, parsing
+// of the stored keys: C04's create-then-reload harness runs the real function). Contract kept: the manager is named by
+// its bucket and its storage is that bucket.
+func loadAddrManager(amBucket mwdb.Bucket, pubPassphrase []byte, net *wconfig.Params) (*AddrManager, error) {
+	if !rt.CutActive("loadAddrManager") {
+		return loadAddrManager__real(amBucket, pubPassphrase, net)
+	}
+	meta := amBucket.GetBucketMeta()
+	return &AddrManager{keystoreName: meta.Name(), index: map[uint32]string{}, addrs: map[string]*ManagedAddress{},
+		acctInfo: &accountInfo{}, branchInfo: &branchInfo{}, storage: meta}, nil
 }
